@@ -11,6 +11,7 @@ Record case := {
   c_evalstep : bool;             (* true: DefaultEvaluatorStep, false: DefaultOptimizerStep *)
   c_cfg : cfg;
   c_script : list req;
+  c_nested : option (cfg * list (list req));   (* nested optimization: its configuration, one script per outer request *)
   c_outcome : obs_outcome;       (* implementation: exit code value or exception class *)
   c_delivered : list res;        (* implementation: results seen by the FINISHED_EVALUATION observer *)
   c_events : list Z              (* implementation: EventType values seen by the observers, in order *)
@@ -50,7 +51,15 @@ Definition wf_case (c : case) : bool :=
   (length (order (c_cfg c)) =? nreal (c_cfg c)) &&
   forallb (fun r => existsb (Nat.eqb r) (order (c_cfg c))) (seq 0 (nreal (c_cfg c))) &&
   (min_stddev =? min_stddev_realizations) &&
-  (if c_evalstep c then length (c_script c) =? 1 else true).
+  (if c_evalstep c then length (c_script c) =? 1 else true) &&
+  match c_nested c with
+  | Some (ic, scripts) =>
+      negb (c_evalstep c) && (length scripts =? length (c_script c)) &&
+      forallb (fun s => forallb (wf_req ic) s) scripts && (nreal ic =? nreal (c_cfg c)) &&
+      forallb (fun r => match rk r with KG => false | _ => batch r =? 0 end) (c_script c) &&
+      forallb (fun r => existsb (Nat.eqb r) (order ic)) (seq 0 (nreal ic))
+  | None => true
+  end.
 
 (* property clauses evaluated directly on the observation *)
 Definition is_F (r : res) : bool := rkind_eqb (r_kind r) RF.
@@ -67,7 +76,7 @@ Fixpoint cache_ok (tr : option nat) (s : list req) : bool :=
 Definition budget_ok (c : case) : bool :=
   match maxf (c_cfg c) with
   | Some m =>
-      if negb (c_evalstep c) && cache_ok None (c_script c) then
+      if negb (c_evalstep c) && cache_ok None (c_script c) && negb (match c_nested c with Some _ => true | None => false end) then
         length (filter is_F (c_delivered c)) <=?
           m + (fold_right Nat.max 1 (map (fun r => length (vectors r)) (c_script c)) - 1)
       else true
@@ -75,12 +84,19 @@ Definition budget_ok (c : case) : bool :=
   end.
 Definition has_raise (s : list req) : bool := existsb (fun r => match flt r with FRaise => true | _ => false end) s.
 Definition no_internal_exception (c : case) : bool :=
-  match c_outcome c with OExc _ => has_raise (c_script c) | OExit _ => true end.
+  match c_outcome c with
+  | OExc _ => has_raise (c_script c) ||
+              match c_nested c with Some (_, scripts) => existsb has_raise scripts | None => false end
+  | OExit _ => true
+  end.
 
 Definition model_obs (c : case) : outcome * list res * list evt :=
   if c_evalstep c then
     match c_script c with r :: _ => run_evaluator_step (c_cfg c) r | [] => (Raise, [], []) end
-  else run_optimizer_step (c_cfg c) (c_script c).
+  else match c_nested c with
+       | Some (ic, scripts) => run_nested_step (c_cfg c) ic (combine (c_script c) scripts)
+       | None => run_optimizer_step (c_cfg c) (c_script c)
+       end.
 
 Definition check_case (c : case) : bool :=
   wf_case c &&
